@@ -42,25 +42,29 @@ theorem c31_rune_no_overflow (s : List Char) (hne : s ≠ []) (hbig : 2 ^ 128 < 
   · exact hne h0
   · unfold Rune.U128 at hv; omega
 
-/-! ## `SpacedRune::from_str` -/
+/-! ## `SpacedRune::from_str`
 
-/-- **Fails today**: a spacer after 33 letters shifts a `u32` by 32 — a panic in the dev
-profile (replayed on the real code: corpus/C31/runeparse.spaced-shl.txt). -/
+`SpacedRune.parseWith false` is the code before `notes/fix-spaced-rune-shl.diff`, `parseWith true` the
+repaired code; `SpacedRune.parse = parseWith Generated.SpacedRuneFix.shlFixed` is whichever the
+source text currently contains (re-extracted on every run). -/
+
+/-- **Failed before the repair**: a spacer after 33 letters shifts a `u32` by 32 — a panic in the
+dev profile (replayed on the real code: corpus/C31/runeparse.spaced-shl.txt). -/
 theorem c31_spaced_total_fails :
-    SpacedRune.parse (List.replicate 33 'A' ++ ['.', 'A']) = .panic "shl" := by decide
+    SpacedRune.parseWith false (List.replicate 33 'A' ++ ['.', 'A']) = .panic "shl" := by decide
 
-/-- never panics on inputs with at most 32 letters (any other characters, any length) -/
-theorem c31_spaced_total_partial (s : List Char) (h : (s.filter Rune.isUpper).length ≤ 32)
-    (p : String) : SpacedRune.parse s ≠ .panic p := by
-  unfold SpacedRune.parse
-  cases hl : SpacedRune.parseLoop [] 0 s with
-  | panic q => exact absurd hl (SpacedRune.parseLoop_ne_panic s [] 0 q (by simpa using h))
+/-- either variant never panics on inputs with at most 32 letters (any other characters, any length) -/
+theorem c31_spaced_total_partial (fx : Bool) (s : List Char)
+    (h : (s.filter Rune.isUpper).length ≤ 32) (p : String) : SpacedRune.parseWith fx s ≠ .panic p := by
+  unfold SpacedRune.parseWith
+  cases hl : SpacedRune.parseLoopWith fx [] 0 s with
+  | panic q => exact absurd hl (SpacedRune.parseLoop_ne_panic fx s [] 0 q (by simpa using h))
   | err e => simp
   | ok r =>
     obtain ⟨letters, sp⟩ := r
-    have hlet := SpacedRune.parseLoop_letters s [] 0 letters sp hl
+    have hlet := SpacedRune.parseLoop_letters fx s [] 0 letters sp hl
     simp only [List.reverse_nil, List.nil_append] at hlet
-    have hlen : ¬ (letters.length ≥ 2 ^ 32) := by rw [hlet]; omega
+    have hlen : ¬ (fx = false ∧ letters.length ≥ 2 ^ 32) := by rw [hlet]; intro ⟨_, h'⟩; omega
     simp only [hlen, if_false]
     split
     · simp
@@ -69,23 +73,50 @@ theorem c31_spaced_total_partial (s : List Char) (h : (s.filter Rune.isUpper).le
       | err e => simp
       | panic q => exact absurd hr (c31_rune_total letters q)
 
-/-- accepted only if the string denotes the returned rune and spacers -/
-theorem c31_spaced_sound (s : List Char) (r sp : Nat) (h : SpacedRune.parse s = .ok (r, sp)) :
+/-- **the repaired parser is total**: it never panics, on any string -/
+theorem c31_spaced_total_fixed (s : List Char) (p : String) : SpacedRune.parseWith true s ≠ .panic p := by
+  unfold SpacedRune.parseWith
+  cases hl : SpacedRune.parseLoopWith true [] 0 s with
+  | panic q => exact absurd hl (SpacedRune.parseLoop_fixed_ne_panic s [] 0 q)
+  | err e => simp
+  | ok r =>
+    obtain ⟨letters, sp⟩ := r
+    simp only [Bool.true_eq_false, false_and, if_false]
+    split
+    · simp
+    · cases hr : Rune.parse letters with
+      | ok v => simp
+      | err e => simp
+      | panic q => exact absurd hr (c31_rune_total letters q)
+
+/-- …so the parser as it currently is in /repo is total as soon as the extractor sees the repair -/
+theorem c31_spaced_total_current (hfix : Ord.Generated.SpacedRuneFix.shlFixed = true)
+    (s : List Char) (p : String) : SpacedRune.parse s ≠ .panic p := by
+  unfold SpacedRune.parse; rw [hfix]; exact c31_spaced_total_fixed s p
+
+/-- the repaired parser answers `err range` on the former panic witness, and differs from the
+unchanged one only where that one panics -/
+theorem c31_spaced_fixed_witness :
+    SpacedRune.parseWith true (List.replicate 33 'A' ++ ['.', 'A']) = .err "range" := by decide
+
+/-- accepted (by either variant) only if the string denotes the returned rune and spacers -/
+theorem c31_spaced_sound (fx : Bool) (s : List Char) (r sp : Nat)
+    (h : SpacedRune.parseWith fx s = .ok (r, sp)) :
     s.filter Rune.isUpper ≠ [] ∧
     Rune.bij (s.filter Rune.isUpper) = r + 1 ∧ r < 2 ^ 128 ∧
     sp < 2 ^ ((s.filter Rune.isUpper).length - 1) ∧
     SpacedRune.normalize s = SpacedRune.interleave sp 0 (s.filter Rune.isUpper) :=
-  SpacedRune.parse_ok s r sp h
+  SpacedRune.parse_ok fx s r sp h
 
 /-- conversely, every string of letters and spacers that denotes a rune fitting 128 bits and a
-mask below the last letter is accepted with exactly that rune and mask (acceptance = denotation) -/
-theorem c31_spaced_complete (s : List Char) (r sp : Nat)
+mask below the last letter is accepted (by either variant) with exactly that rune and mask -/
+theorem c31_spaced_complete (fx : Bool) (s : List Char) (r sp : Nat)
     (hchars : ∀ c ∈ s, Rune.isUpper c = true ∨ SpacedRune.isSpacer c = true)
     (hne : s.filter Rune.isUpper ≠ []) (hb : Rune.bij (s.filter Rune.isUpper) = r + 1)
     (hr : r < 2 ^ 128) (hsp : sp < 2 ^ ((s.filter Rune.isUpper).length - 1))
     (hnorm : SpacedRune.normalize s = SpacedRune.interleave sp 0 (s.filter Rune.isUpper)) :
-    SpacedRune.parse s = .ok (r, sp) :=
-  SpacedRune.parse_complete s r sp hchars hne hb hr hsp hnorm
+    SpacedRune.parseWith fx s = .ok (r, sp) :=
+  SpacedRune.parse_complete fx s r sp hchars hne hb hr hsp hnorm
 
 /-! ## `RuneId::from_str` -/
 
@@ -148,12 +179,12 @@ theorem c31_id_recorded :
 /-! Non-vacuity -/
 example : Rune.parse "AB".toList = .ok 27 := by decide
 example : Rune.parse "A1".toList = .err "character 49" := by decide
-example : SpacedRune.parse "A.B•C".toList = .ok (730, 3) := by decide
-example : SpacedRune.parse "A..B".toList = .err "double" := by decide
-example : SpacedRune.parse ".A".toList = .err "leading" := by decide
-example : SpacedRune.parse "A.".toList = .err "trailing" := by decide
-example : SpacedRune.parse [] = .err "trailing" := by decide
-example : SpacedRune.parse (List.replicate 32 'A' ++ ['.', 'A']) = .err "range" := by decide
+example : SpacedRune.parseWith false "A.B•C".toList = .ok (730, 3) := by decide
+example : SpacedRune.parseWith true "A..B".toList = .err "double" := by decide
+example : SpacedRune.parseWith true ".A".toList = .err "leading" := by decide
+example : SpacedRune.parseWith false "A.".toList = .err "trailing" := by decide
+example : SpacedRune.parseWith true [] = .err "trailing" := by decide
+example : SpacedRune.parseWith false (List.replicate 32 'A' ++ ['.', 'A']) = .err "range" := by decide
 example : RuneId.parse "840000:1".toList = .ok (840000, 1) := by decide
 example : RuneId.parse "1".toList = .err "separator" := by decide
 
